@@ -56,8 +56,53 @@ def _np_equal(res, expect):
     try:
         d = res.todense() if hasattr(res, "todense") else np.asarray(res)
         return bool(d.shape == expect.shape and np.array_equal(d, expect))
-    except Exception:  # noqa: BLE001  (a result that cannot even be densified is not NumPy's result)
-        return False
+    except Exception as ex:  # noqa: BLE001  (a result that cannot even be densified is not NumPy's result)
+        return "raises:" + type(ex).__name__
+
+
+def _dense_from_plain(p):
+    """dense array denoted by the raw representation (vlib.plain dict), computed without the library's own
+    readers (todense / tocoo), so that a result whose stored numbers are right but which the library misreads
+    (index dtype too narrow) can be told apart from a wrong result"""
+    import itertools
+
+    import numpy as np
+    if p.get("k") not in ("coo", "gcxs", "dok"):
+        return None
+    shape = tuple(p["shape"])
+    d = np.full(shape, p["fill"], dtype=object)
+    if p["k"] == "coo":
+        for c, v in zip(p["coords"], p["data"], strict=True):
+            d[tuple(c)] = v
+    elif p["k"] == "dok":
+        for c, v in p["items"]:
+            d[tuple(c)] = v
+    else:
+        nd = len(shape)
+        if nd == 0:
+            for v in p["data"]:
+                d[()] = v
+        elif nd == 1:
+            for i, v in zip(p["indices"], p["data"], strict=True):
+                d[i] = v
+        else:
+            ca = list(p["caxes"])
+            order = ca + [a for a in range(nd) if a not in ca]
+            rsh = [shape[a] for a in order]
+            cs = 1
+            for x in rsh[len(ca):]:
+                cs *= x
+            ip = p["indptr"]
+            for r in range(len(ip) - 1):
+                for pos in range(ip[r], ip[r + 1]):
+                    lin = r * cs + p["indices"][pos]
+                    t = np.unravel_index(lin, rsh) if all(rsh) else None
+                    ix = [0] * nd
+                    for a, tv in zip(order, t, strict=True):
+                        ix[a] = int(tv)
+                    d[tuple(ix)] = p["data"][pos]
+    del itertools
+    return d
 
 
 def _build(spec):
@@ -83,6 +128,9 @@ def impl_join(case):
         e = (np.stack if case["fn"] == "stack" else np.concatenate)(dens, axis=case["axis"])
         out["np_ok"] = None if isinstance(r, Exception) else _np_equal(r, e)
         out["np_shape"] = list(e.shape)
+        if not isinstance(r, Exception):
+            dd = _dense_from_plain(out["res"])
+            out["rep_ok"] = None if dd is None else bool(dd.shape == e.shape and (dd == e).all())
     except Exception as ex:  # noqa: BLE001
         out["np_ok"] = None
         out["np_exc"] = type(ex).__name__
@@ -258,6 +306,13 @@ def join_cases(tier, rng):
             axis = rng.randrange(-nd - 1, nd + 1)
             ms = [_member(rng, base, fmts[i], 0, idx_dtype=dt, density=rng.choice([0.05, 0.2])) for i in range(n)]
         cases.append({"fn": fn, "axis": axis, "caxes": None, "members": ms, "tag": "idx_dtype:" + dt})
+    # directed: all-GCXS members with narrow indices, joined extent beyond the index dtype
+    for dt, ext in (("int8", 100), ("uint8", 200), ("int16", 100)):
+        for ax in (0, 1, -1):
+            base = [2, 2]
+            base[ax] = ext
+            ms = [_member(rng, base, "gcxs", 0, idx_dtype=dt, density=0.1) for _ in range(2)]
+            cases.append({"fn": "concatenate", "axis": ax, "caxes": None, "members": ms, "tag": "idx_dtype:" + dt})
     return cases
 
 
@@ -436,7 +491,7 @@ def campaign(build, tier, seed, report, budget=1):
             if r is None or "res" not in r:
                 viol.append({"property": "C09", "op": c.get("fn", c.get("op")), "kind": "value", "clause": "hang_or_crash",
                              "case": c, "impl": r, "replay_py": replay_join(c) if "fn" in c else replay_extract(c)})
-            elif r.get("np_ok") is False:
+            elif r.get("np_ok") is False or isinstance(r.get("np_ok"), str):
                 op = c.get("op") or ("stack" if c["fn"] == "stack" else "concatenate")
                 viol.append({"property": "C09", "op": op, "kind": "value", "clause": py_clause(c),
                              "case": c, "impl": r["res"], "note": "NumPy cross-check (the Coq judge does not build)",
@@ -496,10 +551,19 @@ def campaign(build, tier, seed, report, budget=1):
         if c["tag"].startswith("idx_dtype"):
             tag("join/" + c["tag"] + "->" + str(r["res"].get("idx_dtype")))
         # the Spec itself against NumPy: whenever the judge accepted a non-exception result, NumPy must agree
-        if r.get("np_ok") is False and bad_codes.get(id(c)) is None:
+        if r.get("rep_ok") is False and bad_codes.get(id(c)) is None:
             spec_vs_numpy += 1
             viol.append({"property": "C09", "op": c["fn"], "kind": "representation", "clause": "spec_differs_from_numpy",
                          "case": c, "impl": r["res"], "replay_py": replay_join(c)})
+        # the stored numbers are right (the judge accepted them, and they denote NumPy's result) but the library
+        # itself cannot read the object back: its index dtype is too narrow for the joined extent
+        # (todense()/tocoo() raise, or wrap around silently)
+        if r.get("rep_ok") and (r.get("np_ok") is False or isinstance(r.get("np_ok"), str)) \
+                and bad_codes.get(id(c)) is None:
+            tag("join/result-unreadable/" + str(r["res"].get("idx_dtype")))
+            viol.append({"property": "C09", "op": "concatenate" if c["fn"] == "concat" else c["fn"], "kind": "value",
+                         "clause": "joined_result_unreadable_narrow_index_dtype", "case": c, "impl": r["res"],
+                         "todense": r["np_ok"], "replay_py": replay_join(c)})
 
     # ---- kernel: indptr splice
     sl, smap = [], []
@@ -553,6 +617,9 @@ def campaign(build, tier, seed, report, budget=1):
             spec_vs_numpy += 1
             viol.append({"property": "C09", "op": c["op"], "kind": "representation", "clause": "spec_differs_from_numpy",
                          "case": c, "impl": r["res"], "replay_py": replay_extract(c)})
+        if not failed(r) and isinstance(r.get("np_ok"), str) and id(c) not in flagged:
+            viol.append({"property": "C09", "op": c["op"], "kind": "value", "clause": "result_unreadable",
+                         "case": c, "impl": r["res"], "todense": r["np_ok"], "replay_py": replay_extract(c)})
 
     # within a class the check reports the first violation: put informative, small cases first
     def weight(v):
